@@ -72,6 +72,9 @@ def I(term):  # noqa: E743
     if type(term) is T:
         return term
     t = T(term)
+    if term and term[0] == "const":
+        # 1 == True == 1.0 in Python: keep literals of different types apart
+        return _INTERN.setdefault((type(term[1]).__name__, t), t)
     return _INTERN.setdefault(t, t)
 
 
